@@ -532,6 +532,25 @@ Section Level.
     | _, _ => None
     end.
 
+  (* destructuring: a tuple or list pattern takes a sequence of exactly as many items (ValueError otherwise, TypeError
+     on a non-sequence, as Python's unpacking); `_` binds nothing *)
+  Fixpoint bind_pat (p : pat) (v : value) (en : env) {struct p} : res env :=
+    match p with
+    | PVar x => Ok ((x, v) :: en)
+    | PDiscard => Ok en
+    | PTuple ps | PList ps =>
+      match v with
+      | VList vs | VTuple vs =>
+        (fix go (ps : list pat) (vs : list value) (en : env) : res env :=
+           match ps, vs with
+           | [], [] => Ok en
+           | q :: pr, w :: vr => bind (bind_pat q w en) (fun en' => go pr vr en')
+           | _, _ => Raise ValueError
+           end) ps vs en
+      | _ => Raise TypeError
+      end
+    end.
+
   (* lift an expression result into a statement result *)
   Definition with_val (st : state) (r : res value) (k : value -> sres) : sres :=
     match r with Ok v => k v | Raise e => SErr e (s_out st) | OutOfFuel => SFuel (s_out st) end.
@@ -608,6 +627,13 @@ Section Level.
           | None => SErr ValueError (s_out st)
           end
         | _ => SErr TypeError (s_out st)
+        end)
+    | SNPat p e =>
+      with_val st (eval (s_env st) e) (fun v =>
+        match bind_pat p v (s_env st) with
+        | Ok en => SOk (set_env st en)
+        | Raise ex => SErr ex (s_out st)
+        | OutOfFuel => SFuel (s_out st)
         end)
     | SPCall f args =>
       match lookup f (s_env st) with
